@@ -123,7 +123,8 @@ def run(f, fixture, rep, cfg, tier):
 
     # ---- R4 -------------------------------------------------------------------------------------
     cb = f.one("FileOptionsBuilder::caps")
-    errs = {x for (_b, x) in err_assign_blocks(cb)}
+    from common import constructed_errors
+    errs = {x for (_b, x) in err_assign_blocks(cb)} | constructed_errors(f, cb)
     # the builder hands the caller's text to FileCaps::from_str as given (trimming or re-casing it would store something else)
     tcb = TermBuilder(cb)
     fs = [c for c in cb.calls() if c.decl == "std::str::FromStr::from_str" or c.decl.endswith("FileCaps::new") or c.decl.endswith("FileCaps as std::str::FromStr>::from_str")]
